@@ -199,8 +199,12 @@ Definition proof_to_path (db : pdb) (root_hash : list N) (root : option node) (k
   | Rok r => let k := keybytes_to_hex key in ptp (ptp_fuel k db) db allow r k
   end.
 
-(* the slots lo <= i < hi of a children array *)
-Definition slots (lo hi : nat) (cs : list node) : list node := firstn (hi - lo) (skipn lo cs).
+(* some Children[j] != nil with lo <= j < hi ([i] = index of the head of [cs]) *)
+Fixpoint any_from (i lo hi : nat) (cs : list node) : bool :=
+  match cs with
+  | [] => false
+  | c :: r => (Nat.leb lo i && Nat.ltb i hi && negb (is_empty c)) || any_from (S i) lo hi r
+  end.
 
 (* hasRightElement; [key] is key[pos:].  The Go loop descends into rn.Val /
    rn.Children[key[pos]] only, hence structural. *)
@@ -211,7 +215,7 @@ Fixpoint has_right (n : node) (key : list N) {struct n} : tres bool :=
       match key with
       | [] => TErr EPanic
       | k0 :: kr =>
-          if existsb (fun c => negb (is_empty c)) (slots (N.to_nat k0 + 1) 16 cs) then TOk true
+          if any_from 0 (N.to_nat k0 + 1) 16 cs then TOk true       (* for i := key[pos]+1; i < 16; i++ *)
           else
             (fix go (l : list node) (i : nat) {struct l} : tres bool :=
                match l with
@@ -299,6 +303,37 @@ Definition iface_neq (l0 r0 : N) (ln rn : node) : option bool :=
 Definition of_tres {A} (r : tres A) : rr A :=
   match r with TOk a => Rok a | TErr e => Rerr (of_terr e) end.
 
+(* unsetInternal, the fork point is a fullNode: l.325-334
+     for i := left[pos] + 1; i < right[pos]; i++ { rn.Children[i] = nil }
+     unset(rn, rn.Children[left[pos]], left[pos:], 1, false)
+     unset(rn, rn.Children[right[pos]], right[pos:], 1, true) *)
+Definition ui_fork (cs : list node) (l0 : N) (lr : list N) (r0 : N) (rr0 : list N) : rr uact :=
+  let cs1 := clear_range (N.to_nat l0 + 1) (N.to_nat r0) cs in
+  match child cs1 l0 with
+  | None => Rerr RPanic
+  | Some c1 =>
+      match unset c1 lr false with
+      | TErr e => Rerr (of_terr e)
+      | TOk a1 =>
+          match apply_act cs1 l0 a1 with
+          | None => Rerr RPanic
+          | Some cs2 =>
+              match child cs2 r0 with
+              | None => Rerr RPanic
+              | Some c2 =>
+                  match unset c2 rr0 true with
+                  | TErr e => Rerr (of_terr e)
+                  | TOk a2 =>
+                      match apply_act cs2 r0 a2 with
+                      | None => Rerr RPanic
+                      | Some cs3 => Rok (UKeep (NFull cs3))
+                      end
+                  end
+              end
+          end
+      end
+  end.
+
 (* unsetInternal from node [n]; [left] / [right] are left[pos:] / right[pos:].
    Result for the slot [n] sits in: URemove at the root means (true, nil). *)
 Fixpoint unset_internal (n : node) (left right : list N) {struct n} : rr uact :=
@@ -346,32 +381,7 @@ Fixpoint unset_internal (n : node) (left right : list N) {struct n} : rr uact :=
                 if is_empty ln || is_empty rn then Some true else iface_neq l0 r0 ln rn in
               match fork with
               | None => Rerr RPanic
-              | Some true =>
-                  let cs1 := clear_range (N.to_nat l0 + 1) (N.to_nat r0) cs in
-                  match child cs1 l0 with
-                  | None => Rerr RPanic
-                  | Some c1 =>
-                      match unset c1 lr false with
-                      | TErr e => Rerr (of_terr e)
-                      | TOk a1 =>
-                          match apply_act cs1 l0 a1 with
-                          | None => Rerr RPanic
-                          | Some cs2 =>
-                              match child cs2 r0 with
-                              | None => Rerr RPanic
-                              | Some c2 =>
-                                  match unset c2 rr0 true with
-                                  | TErr e => Rerr (of_terr e)
-                                  | TOk a2 =>
-                                      match apply_act cs2 r0 a2 with
-                                      | None => Rerr RPanic
-                                      | Some cs3 => Rok (UKeep (NFull cs3))
-                                      end
-                                  end
-                              end
-                          end
-                      end
-                  end
+              | Some true => ui_fork cs l0 lr r0 rr0
               | Some false =>
                   match (fix go (l : list node) (i : nat) {struct l} : option (rr uact) :=
                            match l with
